@@ -4,6 +4,7 @@ use super::common::*;
 use super::*;
 use crate::spec::*;
 use crate::sys::*;
+use pvcore::refcodec::*;
 
 pub fn check(tier: Tier) -> Check {
     let parts = vec![
@@ -16,7 +17,7 @@ pub fn check(tier: Tier) -> Check {
         also_rel: false,
         property: "C08",
         level: "model_checking",
-        rule: "all sequences of inbound PUBLISH (QoS 0/1/2 x DUP x packet id x subscription identifier absent / live stream / dropped stream / never registered) and PUBREL (also several packets arriving in one read, repeated PUBRELs and PUBRELs for identifiers never seen), with one client publish interleaved; the wire must show exactly one PUBACK/PUBREC/PUBCOMP per packet with its identifier, in arrival order; non-trivial = at least one acknowledgement was due".into(),
+        rule: "all sequences of inbound PUBLISH (QoS 0/1/2 x DUP x packet id x subscription identifier absent / live stream / dropped stream / never registered) and PUBREL (also several packets arriving in one read, repeated PUBRELs, PUBRELs for identifiers never seen, PUBRELs in their three-byte form with reason 0x92 and in full with a reason string), with one client publish interleaved; the wire must show exactly one PUBACK/PUBREC/PUBCOMP per packet with its identifier, in arrival order; non-trivial = at least one acknowledgement was due".into(),
         assumptions: vec!["the reason code inside the client's acknowledgement is unconstrained".into()],
         parts,
     }
@@ -69,6 +70,16 @@ pub fn scenario(name: &str, params: &Value) -> Scenario {
             for pid in &pids {
                 e.push(Ev::Deliver(pubrel_in(*pid)));
             }
+            // PUBREL in its other legal forms: reason only (0x92 Packet Identifier not found), and
+            // in full with a reason string - every PUBREL is answered with exactly one PUBCOMP
+            e.push(Ev::Deliver(SPacket::Ack { ty: 6, pid: pids[0], reason: 0x92, props: vec![], form: 3 }));
+            e.push(Ev::Deliver(SPacket::Ack {
+                ty: 6,
+                pid: pids[pids.len() - 1],
+                reason: if n % 2 == 0 { 0x92 } else { 0 },
+                props: vec![Prop::str(P_REASON_STRING, "rel")],
+                form: 4,
+            }));
             // several inbound packets in one read: the acknowledgements must keep arrival order
             let a = pids[0];
             let b = pids[pids.len() - 1];
